@@ -394,7 +394,16 @@ SOFT = [
     ("map", {"t": "mapkv", "kf": STR, "vf": INT, "sz": [None, None]}),
     ("any", {"t": "any"}),
 ]
-LATTICE_DOCS = [["a"], [], [1], ["a", 1], [1, "a"], ["a", "b", "c"], [["a"]], [["a", 1]], [[]], "x", 5, None, {}, {"k": 1}, True]
+LATTICE_DOCS = [["a"], [], [1], ["a", 1], [1, "a"], ["a", "b", "c"], [["a"]], [["a", 1]], [[]], "x", 5, None, {}, {"k": 1}, True,
+                [-1, -2], [1, 2]]
+# alternatives whose pre-validation during deserialization is weaker than their validation (sign classes are
+# checked by __set__ only, sizes by the collection's __set__), next to an alternative of another Python type
+POSINT = {"t": "num", "k": "Integer", "s": "Positive"}
+WEAK_PAIRS = [
+    ("tuple-int2", {"t": "tuple", "items": [INT, INT], "uniq": False}, "array-positive", _arr(POSINT)),
+    ("tuple-int2", {"t": "tuple", "items": [INT, INT], "uniq": False}, "array-max1",
+     {"t": "seqeach", "k": "list", "item": INT, "sz": [None, 1], "uniq": False}),
+]
 LATTICE_DOCS_EXT = ["n/a", "12.5", "", 5, 2.5, True, "07:15:45", None, [], ["n/a"], ["a"], ["1"], {}, {"k": 1}]
 POSITIONS = ["direct", "array-item", "map-value", "tuple-item", "compact", "nested-class"]
 
@@ -410,6 +419,10 @@ def lattice_wrappers(hard, softs=SOFT):
                                 {"t": kind, "fs": copy.deepcopy(fs)}))
             # a single hard alternative (NotField / AllOf of one option are common spellings)
             out.append(("%s[%s]" % (kind, hn), {"t": kind, "fs": [copy.deepcopy(h)]}))
+        if hard is HARD_MODEL:
+            for an, a, bn, b in WEAK_PAIRS:
+                out.append(("%s[%s,%s]" % (kind, an, bn), {"t": kind, "fs": [copy.deepcopy(a), copy.deepcopy(b)]}))
+                out.append(("%s[%s,%s]" % (kind, bn, an), {"t": kind, "fs": [copy.deepcopy(b), copy.deepcopy(a)]}))
     return out
 
 
